@@ -183,3 +183,52 @@ fn canary_add_provider_never_stored() {
     env.on_add_provider(peer(s), record::Key::from(Vec::new()), kad_peer(peer(a)));
     assert!(env.store.add_calls == 0);
 }
+
+// ---- TEMP debug harnesses (to be removed) ----
+fn dbg_env(local: PeerId, ttl: Option<Duration>, unfiltered: bool, refuse: bool) -> Env {
+    Env {
+        kbuckets: Buckets { local: LocalKey(local) },
+        provider_record_ttl: ttl,
+        record_filtering: if unfiltered { StoreInserts::Unfiltered } else { StoreInserts::FilterBoth },
+        store: RecStore { add_calls: 0, last_provider: None, refuse },
+        queued_events: EvQ { pushed: 0, offered_provider: None },
+        reached_store_path: false,
+    }
+}
+#[kani::proof]
+#[kani::unwind(8)]
+fn dbg1_unfiltered_ok_nottl() {
+    let mut env = dbg_env(peer(1), None, true, false);
+    env.provider_received(record::Key::from(Vec::new()), kad_peer(peer(2)));
+    assert!(env.store.add_calls == 1);
+}
+#[kani::proof]
+#[kani::unwind(8)]
+fn dbg2_unfiltered_refuse() {
+    let mut env = dbg_env(peer(1), None, true, true);
+    env.provider_received(record::Key::from(Vec::new()), kad_peer(peer(2)));
+    assert!(env.store.add_calls == 1);
+}
+#[kani::proof]
+#[kani::unwind(8)]
+fn dbg3_filterboth() {
+    let mut env = dbg_env(peer(1), None, false, false);
+    env.provider_received(record::Key::from(Vec::new()), kad_peer(peer(2)));
+    assert!(env.store.add_calls == 0);
+}
+#[kani::proof]
+#[kani::unwind(8)]
+fn dbg4_local() {
+    let mut env = dbg_env(peer(1), None, true, false);
+    env.provider_received(record::Key::from(Vec::new()), kad_peer(peer(1)));
+    assert!(env.store.add_calls == 0);
+}
+#[kani::proof]
+#[kani::unwind(8)]
+#[kani::stub(std::time::Instant::now, clock::now)]
+fn dbg5_ttl() {
+    clock::set(5, 0);
+    let mut env = dbg_env(peer(1), Some(Duration::from_secs(7)), true, false);
+    env.provider_received(record::Key::from(Vec::new()), kad_peer(peer(2)));
+    assert!(env.store.add_calls == 1);
+}
